@@ -126,7 +126,6 @@ Proof.
   destruct n as [e|s|b].
   - destruct e; cbn [children_vis] in Hin; try (destruct Hin; fail); apply D; exact Hin.
   - destruct s; cbn [children_vis] in Hin; try (destruct Hin; fail); try (apply D; exact Hin).
-    + apply D. cbn in Hin |- *. tauto.
     + apply assign_children_in in Hin as [Hin|[v [Hv Hc]]].
       * apply D. cbn [children_all]. apply in_or_app; auto.
       * exists (NE v). split; [cbn [children_all]; apply in_or_app; left; apply in_map; auto|].
@@ -261,7 +260,6 @@ Proof.
   intros Hok Hin. destruct n as [e|s|b].
   - left. destruct e; cbn [children_all] in Hin; cbn [children_vis]; auto.
   - destruct s; cbn [children_all] in Hin; cbn [children_vis]; auto.
-    + left. cbn in Hin |- *. tauto.
     + apply in_app_or in Hin as [Hin|Hin].
       * right. apply in_map_iff in Hin as [v [<- Hv]]. exists vars, es, l, v. repeat split; auto.
         cbn in Hok. rewrite Forall_forall in Hok. auto.
